@@ -273,7 +273,7 @@ def main(argv):
     if tier not in ("quick", "thorough"):
         print("tier must be quick or thorough", file=sys.stderr)
         return 2
-    tier = os.environ.get("VERIF_TIER", tier) if os.environ.get("VERIF_TIER") in ("quick", "thorough") else tier
+    # the tier named on the command line is authoritative (quick_cmd / thorough_cmd both name it); VERIF_TIER is informational
     t0 = time.time()
     known = [k for k in _load_known() if k.get("property") == pid]
     open_known = [k for k in known if k.get("status") == "open"]
